@@ -1,6 +1,7 @@
 //! mvh — conformance harness binding the TLA+ specification in /verif/spec to cf/miden-vm.
 mod air;
 mod asmhist;
+mod astrt;
 mod codec;
 mod exec;
 mod hints;
@@ -28,6 +29,8 @@ fn main() {
         "hints" => hints::run_hints(a(2), a(3)),
         "determinism" => trace::determinism(a(2), a(3)),
         "asm-history" => asmhist::asm_history(a(2), a(3)),
+        "ast-roundtrip" => astrt::ast_roundtrip(a(2), a(3)),
+        "data-roundtrip" => astrt::data_roundtrip(a(2), a(3)),
         "asm-rejects" => asmhist::asm_rejects(a(2), a(3)),
         "iter-walk" => trace::iter_walk(a(2), a(3)),
         other => {
